@@ -222,16 +222,29 @@ func deferredLits(body *ast.BlockStmt) []*ast.FuncLit {
 }
 
 func litCallSeq(fl *ast.FuncLit, table map[string]string) []string {
-	var seq []string
-	ast.Inspect(fl.Body, func(n ast.Node) bool {
-		if c, ok := n.(*ast.CallExpr); ok {
-			if tok, ok := table[exprText(c.Fun)]; ok {
-				seq = append(seq, tok)
+	var seq, deferred []string
+	var walk func(n ast.Node)
+	walk = func(n ast.Node) {
+		ast.Inspect(n, func(m ast.Node) bool {
+			switch x := m.(type) {
+			case *ast.DeferStmt:
+				// a nested deferred literal runs when the enclosing literal returns: last
+				if inner, ok := x.Call.Fun.(*ast.FuncLit); ok {
+					deferred = append(litCallSeq(inner, table), deferred...)
+				} else if tok, ok := table[exprText(x.Call.Fun)]; ok {
+					deferred = append([]string{tok}, deferred...)
+				}
+				return false
+			case *ast.CallExpr:
+				if tok, ok := table[exprText(x.Fun)]; ok {
+					seq = append(seq, tok)
+				}
 			}
-		}
-		return true
-	})
-	return seq
+			return true
+		})
+	}
+	walk(fl.Body)
+	return append(seq, deferred...)
 }
 
 func containsRecover(n ast.Node) bool {
@@ -341,26 +354,52 @@ func serverFacts(g *parsed) string {
 				stmts := x.Body.List
 				for i, st := range stmts {
 					if strings.Contains(exprText(st), "s.connWg.Add(1)") {
-						locked, checked := false, false
+						// the Add is preceded, under one mutex, by a check of the shutdown context, and
+						// Stop cancels under the same mutex: check+Add is atomic w.r.t. the cancel
+						mutex, checked := "", false
 						for j := i - 1; j >= 0; j-- {
 							t := exprText(stmts[j])
-							if t == "s.mu.Unlock()" {
+							if strings.HasSuffix(t, ".Unlock()") {
 								break
 							}
 							if strings.Contains(t, "shutdownCtx") {
 								checked = true
 							}
-							if t == "s.mu.Lock()" {
-								locked = true
+							if strings.HasPrefix(t, "s.") && strings.HasSuffix(t, ".Lock()") {
+								mutex = strings.TrimSuffix(t, ".Lock()")
 								break
 							}
 						}
-						addGuarded = locked && checked
+						unlocked := i+1 < len(stmts) && exprText(stmts[i+1]) == mutex+".Unlock()"
+						stopSeqM := callSeq(stop, map[string]string{mutex + ".Lock": "L", "s.shutdownCancel": "C", mutex + ".Unlock": "U"})
+						cancelUnder := false
+						for x := 0; x+2 < len(stopSeqM)+0; x++ {
+							if stopSeqM[x] == "L" && stopSeqM[x+1] == "C" && stopSeqM[x+2] == "U" {
+								cancelUnder = true
+							}
+						}
+						// Stop holding s.mu (read lock) for its whole duration also orders the two
+						if mutex == "s.mu" {
+							cancelUnder = true
+						}
+						addGuarded = mutex != "" && checked && unlocked && cancelUnder
 					}
 					if is, ok := st.(*ast.IfStmt); ok && exprText(is.Cond) == "err != nil" && i > 0 && strings.Contains(exprText(stmts[i-1]), "s.listener.Accept()") {
+						// either the whole block ends in `continue`, or an inner `if ...Temporary()` block does
+						ast.Inspect(is.Body, func(m ast.Node) bool {
+							inner, ok := m.(*ast.IfStmt)
+							if !ok {
+								return true
+							}
+							if strings.Contains(exprText(inner.Cond), "Temporary()") && len(inner.Body.List) > 0 {
+								if bs, ok := inner.Body.List[len(inner.Body.List)-1].(*ast.BranchStmt); ok && bs.Tok.String() == "continue" {
+									acceptContinues = true
+								}
+							}
+							return true
+						})
 						if len(is.Body.List) > 0 {
-							last := is.Body.List[len(is.Body.List)-1]
-							if bs, ok := last.(*ast.BranchStmt); ok && bs.Tok.String() == "continue" {
+							if bs, ok := is.Body.List[len(is.Body.List)-1].(*ast.BranchStmt); ok && bs.Tok.String() == "continue" {
 								acceptContinues = true
 							}
 						}
